@@ -196,6 +196,7 @@ theorem scalar_bal (c : EncCfg) (hc : LogfmtCfg c) (fuel : Nat) (pfx : Bytes) (v
                       intro x hx; simp only [List.mem_map] at hx; obtain ⟨y, hy, rfl⟩ := hx
                       simp only [timeText, hnc, ↓reduceIte]; exact bal_rawQuoted y (all_of_all hok y hy)))
   | fallback t => cases fuel <;> (simp only [encVal]; exact hq t)
+  | textm t fb => cases fuel <;> (simp only [encVal]; split <;> exact hq _)
   | group items => simp [isGroupVal] at hng
 
 /-! ### the induction over the encoder -/
